@@ -760,6 +760,7 @@ req0_ctx_send(void *arg, nni_aio *aio)
 	if (nni_list_empty(&s->ready_pipes) &&
 	    !nni_aio_start(aio, req0_ctx_cancel_send, ctx)) {
 		nni_id_remove(&s->requests, ctx->request_id);
+		ctx->request_id = 0;
 		nni_mtx_unlock(&s->mtx);
 		return;
 	}
